@@ -218,6 +218,22 @@ def si_finalize(ctx, R="R-C01-si-finalize"):
         bl_want = S.sub(S.add(S.add(S.sub(S.sym("self._translation"), S.sym("self._skip")), S.sym("self._x_rem")), S.sym("self._y_rem")), borrowed)
         dom = {k: sc.DOM["N"] for k in ("self._translation", "self._skip", "self._x_rem", "self._y_rem")}
         dom.update(sc.DOM)
+        if S.has_unknown(nf) or S.has_unknown(bl):
+            # the flush is taken only on some paths: frames owed, as a total function of the carried state
+            unb = {x: S.ZERO for x in S.walk(nf) if x.op == "unknown"}
+            nf_total = S.subst(nf, unb)
+            ctx.need(not S.has_unknown(nf_total), R, "frame count of SI finalize depends on an untracked value")
+            sc.same(ctx, R, f, f.node, "[%s] frames owed by finalize as a function of the carried state (0 where it skips the flush)" % style,
+                    nf_total, S.emax(S.ZERO, S.floordiv(S.add(bl_want, S.floordiv(sc.Sh, S.lift(2))), sc.Sh)), dom)
+            leaves = [leaf for tests, leaf in cc.strip_cond(bl) if not S.has_unknown(leaf)]
+            ctx.need(len(leaves) == 1, R, "buf_len of SI finalize has no single closed form")
+            nf_leaves = [leaf for tests, leaf in cc.strip_cond(nf) if not S.has_unknown(leaf)]
+            ctx.need(len(nf_leaves) == 1, R, "num_frames of SI finalize has no single closed form")
+            bl, nf = leaves[0], nf_leaves[0]
+        borrowed = sc.Sh if style == "centered" else S.ZERO
+        bl_want = S.sub(S.add(S.add(S.sub(S.sym("self._translation"), S.sym("self._skip")), S.sym("self._x_rem")), S.sym("self._y_rem")), borrowed)
+        dom = {k: sc.DOM["N"] for k in ("self._translation", "self._skip", "self._x_rem", "self._y_rem")}
+        dom.update(sc.DOM)
         sc.same(ctx, R, f, f.node, "[%s] samples still owed a frame = translation - skip + x_rem + y_rem - borrowed" % style, bl, bl_want, dom)
         blv = S.sym("buf_len")
         nf_sub = S.subst(nf, {bl: blv}) if bl != blv else nf
